@@ -170,6 +170,11 @@ def header_fields(cx):
     sk = [c for c in fn.calls() if isinstance(c.func, ast.Attribute) and c.func.attr == 'seek']
     ok = len(sk) == 1 and sym.norm(sk[0]) == sym.norm('%s.seek(begin)' % buf) and all(sk[0].lineno < a.lineno for a in aps)
     fn.ob('FORMULA', 'HEADER is read from its begin offset', ok, sk[0] if sk else fn.ast, key='header-seek')
+    # ... on every call (whatever the offset and the current position of the buffer), and every field is read on every call
+    if sk:
+        fn.ctx_ob('FORMULA', 'the buffer is positioned at the HEADER begin offset', fn.cfg.stmt_of(sk[0]))
+    for i, a in enumerate(aps[:7]):
+        fn.ctx_ob('FORMULA', 'HEADER field %d is read' % (i + 1), a)
     return fn
 
 
@@ -196,6 +201,15 @@ DECODE_ITEMS = [
     ('mixed widths: byte significance follows the byte order', 'SH = NBY - B - 1 if big_endian else B'),
     ('mixed widths: shifted bytes are accumulated (upcast first)', 'DATAV[:, COL] += BYTES[:, BDC].astype(UDT) << SH * 8'),
     ('mixed widths: the least significant byte is accumulated', 'DATAV[:, COL] += BYTES[:, BDC]'),
+    ('range mask: every parameter column is masked', 'for COL2 in range(DATAV.shape[1]):'),
+    ('uniform path: the DATA bytes are mapped with that dtype and shape',
+     "DATAV = np.memmap(buf, dtype=DT, mode='r', offset=begin, shape=SHAPE, order='C')"),
+    ('uniform path: the map is copied into memory', 'DATAV = np.array(DATAV)'),
+    ('float path: the DATA bytes are mapped with that dtype and shape',
+     "DATAV = np.memmap(buf, dtype=DT, mode='r', offset=begin, shape=SHAPE, order='C')"),
+    ('float path: the map is copied into memory', 'DATAV = np.array(DATAV)'),
+    ('mixed widths: the DATA bytes are mapped as single bytes',
+     "BYTES = np.memmap(buf, dtype='uint8', mode='r', offset=begin, shape=BSHAPE, order='C')"),
     ('range mask: bits used = ceil(log2(range))', 'BITS = int(np.ceil(np.log2(param_ranges[COL2])))'),
     ('range mask: low BITS bits set', 'MASK = ~(~0 << BITS)'),
     ('range mask applied to the parameter column', 'DATAV[:, COL2] &= MASK'),
@@ -467,6 +481,11 @@ TOKEN_ITEMS = [
     ('the segment is split on the delimiter', 'PL = RAW.split(DELIM)'),
     ('scan starts at the last token', 'IDX = len(PL) - 1'),
     ('scan runs to the first token', 'while IDX >= 0:'),
+    ('one step to the left: after the first empty token of a run', 'IDX = IDX - 1'),
+    ('one step to the left: inside a run', 'IDX = IDX - 1'),
+    ('one step to the left: after a completed token (boundary case)', 'IDX = IDX - 1'),
+    ('one step to the left: after a glued token', 'IDX = IDX - 1'),
+    ('one step to the left: after a plain token', 'IDX = IDX - 1'),
     ('an empty token starts a run of delimiters', "if PL[IDX] == '':"),
     ('run length starts at one', 'NE = 1'),
     ('the run is extended over consecutive empty tokens', "while IDX >= 0 and PL[IDX] == '':"),
